@@ -100,9 +100,15 @@ type c16Case struct {
 
 func c16Gen(tier string, emit func(c16Case)) {
 	emit(c16Case{Kind: "bad"})
+	// several resources (12+ routes of one method in one bucket) next to another dynamic route of the same first segment
+	for where := 0; where < 4; where++ {
+		for _, base := range []string{"/api/{t}/", "/{t}/", "/api/"} {
+			emit(c16Case{Kind: "multi", Base: base, Mask: where})
+		}
+	}
 	for mask := 0; mask < 128; mask++ {
 		for _, uses := range []bool{false, true} {
-			for bi, base := range []string{"/", "/api/", "", "/{t}/"} {
+			for bi, base := range []string{"/", "/api/", "", "/{t}/", "/{t:[a-z]{4}}/"} {
 				for _, grp := range []bool{false, true} {
 					if tier == "quick" && (mask+bi+b2i(grp)+b2i(uses))%2 == 1 {
 						continue
@@ -173,6 +179,51 @@ func c16Run(c c16Case, st *fw.Stats) []fw.Viol {
 		want := "DELETE /c16bad/{id} c16bad_delete mw=0"
 		if strings.Join(got, "; ") != want {
 			add("resource:wrong-shaped-methods", fmt.Sprintf("controller with unexported / wrong-signature action methods: routes [%s], expected only [%s]", strings.Join(got, "; "), want))
+		}
+		return vs
+	}
+	if c.Kind == "multi" {
+		rec := &c16Rec{}
+		r := rux.New()
+		masks := []int{27, 31, 91, 127} // every one has Index, Create, Show, Edit (four GET routes)
+		extra := func() {
+			// a more specific dynamic route under the same first segment
+			first := strings.Split(strings.Trim(c.Base, "/"), "/")[0]
+			if strings.HasPrefix(first, "{") {
+				first = "acme"
+			}
+			r.GET("/"+first+"/v1/status/{probe}", func(x *rux.Context) { rec.log = append(rec.log, "status") })
+		}
+		if pv := try(func() {
+			for i, m := range masks {
+				if i == c.Mask {
+					extra()
+				}
+				r.Resource(c.Base, c16New(m, false, rec))
+			}
+			if c.Mask >= len(masks)-1 {
+				extra()
+			}
+		}); pv != nil {
+			add("resource:panic", fmt.Sprintf("registering four resources under %q panicked: %v", c.Base, pv))
+			return vs
+		}
+		for _, m := range masks {
+			res := strings.ReplaceAll(refmodel.Norm(c.Base+fmt.Sprintf("res%03d", m), false), "{t}", "acme")
+			for _, q := range [][3]string{{"GET", res + "/create", "action:Create:"}, {"GET", res + "/7", "action:Show:7"}, {"GET", res + "/7/edit", "action:Edit:7"}, {"GET", res, "action:Index:"}, {"HEAD", res + "/create", "action:Create:"}} {
+				st.Evals++
+				st.Nontrivial++
+				rec.log = rec.log[:0]
+				if pv := try(func() { r.ServeHTTP(httptest.NewRecorder(), httptest.NewRequest(q[0], q[1], nil)) }); pv != nil {
+					add("resource:serve-panic", fmt.Sprintf("four resources under %q: %s %s panicked: %v", c.Base, q[0], q[1], pv))
+				} else if got := strings.Join(rec.log, " "); got != q[2] {
+					sig := "resource:dispatch"
+					if strings.HasSuffix(q[1], "/create") {
+						sig = "resource:create-vs-show"
+					}
+					add(sig, fmt.Sprintf("four resources registered under %q (a more specific dynamic route of the same first segment registered at position %d): %s %s ran [%s], the documented table gives [%s]", c.Base, c.Mask, q[0], q[1], got, q[2]))
+				}
+			}
 		}
 		return vs
 	}
@@ -423,7 +474,7 @@ func c16CheckTable(r *rux.Router, c c16Case, desc string, impl []string, resPath
 func c16CheckRouter(r *rux.Router, rec *c16Rec, c c16Case, desc string, impl []string, resPath, resName string, tb *refmodel.Table, defAction []string, st *fw.Stats, add func(sig, msg string)) {
 	// (2) every method x probe path answers as the table says, and nothing else is reachable
 	// (a variable in the base path is given the value "acme")
-	cp := strings.ReplaceAll(resPath, "{t}", "acme")
+	cp := strings.ReplaceAll(strings.ReplaceAll(resPath, "{t:[a-z]{4}}", "acme"), "{t}", "acme")
 	probes := []string{cp, cp + "/create", cp + "/7", cp + "/7/edit", cp + "/create/edit", cp + "/7/x", "/", cp + "x"}
 	type mp struct{ m, p string }
 	var seq []mp
@@ -486,11 +537,11 @@ var c16Spec = fw.Spec[c16Case]{
 	Workers: 1,
 	// the only nondeterminism is Go's map iteration order inside Resource (code under test): a confirmation replay may be retried
 	ReplayAttempts: 40,
-	Rule: "complete enumeration: all 128 subsets of the seven actions as controller method sets (generated types) x with/without Uses() (two distinct middleware, closures of one function literal, for every action, implemented or not) x base in {/, /api/, \"\", /{t}/ (a variable in the base path)} x outside a group / inside Group(/g) / inside Group(/) (group middleware passed with spare capacity) (+ outside a group on a router with a route cache of capacity 1 or 2, all probes issued twice in two orders); the same controller (whose Uses() table is one shared map) registered twice; the registration order inside Resource is DRIVEN through the insertion order of the exported rux.RESTFulActions map and OBSERVED from rux's own debug print; registration is repeated until every permutation of the implemented actions (k<=4, thorough k<=6 on the plain base; all rotations of two base orders beyond) has been observed, or until >12 differently driven registrations all showed one and the same order of >=2 actions (the order then does not come from the map: counter registration_order_independent_of_map_order); " +
+	Rule: "complete enumeration: all 128 subsets of the seven actions as controller method sets (generated types) x with/without Uses() (two distinct middleware, closures of one function literal, for every action, implemented or not) x base in {/, /api/, \"\", /{t}/, /{t:[a-z]{4}}/ (a variable in the base path, plain and with a regex)}; four resources at once next to a more specific dynamic route of the same first segment x outside a group / inside Group(/g) / inside Group(/) (group middleware passed with spare capacity) (+ outside a group on a router with a route cache of capacity 1 or 2, all probes issued twice in two orders); the same controller (whose Uses() table is one shared map) registered twice; the registration order inside Resource is DRIVEN through the insertion order of the exported rux.RESTFulActions map and OBSERVED from rux's own debug print; registration is repeated until every permutation of the implemented actions (k<=4, thorough k<=6 on the plain base; all rotations of two base orders beyond) has been observed, or until >12 differently driven registrations all showed one and the same order of >=2 actions (the order then does not come from the map: counter registration_order_independent_of_map_order); " +
 		"per observed order: Routes()/NamedRoutes() equal the documented table exactly, all 9 methods x 8 probe paths dispatch as the reference resolver says over that table (create never served by show, nothing else reachable), per-action middleware runs only for its action; non-pointer / non-struct / wrong-shaped controllers; non-trivial = a distinct (subset, order) registration",
 	Assume: []string{"runs single-threaded: RESTFulActions, the debug switch and the colour output are process-global", "Go's small-map iteration starts at a random offset of the insertion order; an order not seen within 400 draws is reported as a cap, never as a violation"},
 	Bounds: func(tier string) map[string]any {
-		return map[string]any{"subsets": 128, "uses": 2, "bases": 4, "group": 2, "quick_takes_every_second_combination": tier == "quick"}
+		return map[string]any{"subsets": 128, "uses": 2, "bases": 5, "group": 2, "quick_takes_every_second_combination": tier == "quick"}
 	},
 	Gen:   c16Gen,
 	Run:   c16Run,
